@@ -47,6 +47,11 @@ fn main() {
             println!("{}", engine::print_case(&*prop, tier, idx));
             0
         }
+        "--gen-embed-trees" => {
+            // (maintenance) writes the 12 fixed trees that c04 embeds at compile time
+            vharness::props::c04::generate_fixed_trees(std::path::Path::new(&args[1]));
+            0
+        }
         "--fuzz-one" => {
             // vcheck --fuzz-one <ID> <file>: run one libFuzzer input through the fuzz driver (natively)
             let data = std::fs::read(&args[2]).unwrap_or_default();
